@@ -31,7 +31,7 @@ pub fn parse_record<const H: usize>(
     offset: usize,
 ) -> Result<([u8; H], Vec<u8>, usize), ReadError> {
     // Check if we have enough bytes for the record header
-    if offset + RECORD_HEAD_SIZE > bytes.len() {
+    if bytes.len().saturating_sub(offset) < RECORD_HEAD_SIZE {
         return Err(ReadError::OutOfBounds {
             offset: offset as u64,
             length: RECORD_HEAD_SIZE,
